@@ -35,7 +35,7 @@ GAS = ['CC', 'CCC', 'CC(C)C', 'C=CC', 'CCO', 'CC=O', 'c1ccccc1', 'C/C=C\\C', 'C1
 SURF = ['C([{M}])C', '[{M}]C([{M}])C', 'C(=O)([{M}])O', 'OC[{M}]', 'CC', 'CCO', '[{M}]CC[{M}]', 'C[{M}]', 'CC([{M}])O', 'O=C[{M}]', 'CCC',
         '[{M}]C([{M}])C([{M}])([{M}])C=O', '[{M}]C([{M}])C([{M}])([{M}])C', 'C([{M}])C[{M}]']
 POOLS = {L: (GAS if L in ('BensonGA', 'PPY') else [s.replace('{M}', 'Ru' if L == 'XieGA2022' else 'Pt') for s in SURF]) for L in shipped.LIBS}
-TS = [298.15, 400.0, 650.0]
+TS = [298.15, 400.0, 650.0, 1000.0, 1500.0]      # the last two are the upper ends of the shipped ranges (or beyond them)
 SHARDS = {'quick': 8, 'thorough': 16}
 
 WORKER = r'''
@@ -303,6 +303,42 @@ class Sim(object):
             self.evaluate(k, 0, 0, False, record=False)
             self.evaluate(k, 1, 2, False, record=False)
 
+    def refused_merge(self, oi, gi):
+        """a merge that must be refused (conflicting reference enthalpy, overwrite not allowed; the donor also brings a new Cp
+        point and a wider range): afterwards the library is exactly what it was"""
+        from pgradd.GroupAdd.Library import GroupLibrary
+        from pgradd.ThermoChem import ThermochemGroup
+        if not self.objs:
+            return
+        oi %= len(self.objs)
+        L, obj, hist, flag = self.objs[oi]
+        if flag or oi in self.rev:
+            return
+        keys = {str(k): k for k in obj}
+        used = sorted({g for smi in self.pools[L] for g in (self.base[L]['mols'][smi]['desc'] if isinstance(self.base[L]['mols'][smi]['desc'], dict) else {})})
+        used = [g for g in used if g in keys and 'thermochem' in obj[keys[g]] and obj[keys[g]]['thermochem'].ND_H_ref is not None
+                and obj[keys[g]]['thermochem'].ND_Cp_data]
+        if not used:
+            return
+        g = used[gi % len(used)]
+        tc = obj[keys[g]]['thermochem']
+        ts = sorted(float(t) for t in tc.ND_Cp_data)
+        newT = 0.5 * (ts[0] + ts[1]) + 0.123 if len(ts) > 1 else ts[0] + 11.0
+        r = tc.get_range()
+        rng = (min(float(r[0]), ts[0]) - 5.0, max(float(r[1]), ts[-1]) + 50.0) if r is not None else None
+        self.trace.append(['refused_merge', oi, gi % len(used)])
+        donor = GroupLibrary(obj.scheme, {keys[g]: {'thermochem': ThermochemGroup(float(tc.ND_H_ref) + 2.0, None, {newT: 1.0}, float(tc.T_ref), rng)}})
+        try:
+            obj.Update(donor)
+        except Exception as e:
+            self.ctx.event('op:refused-merge:%s' % type(e).__name__)
+        else:
+            self.fail('conflicting-merge-accepted', 'Update() with a different H_ref for %s (no overwrite) was accepted' % g)
+            self.objs[oi][3] = True
+            return
+        self.nontrivial = True
+        self.check_objects()
+
     def evaluate(self, ei, ti, xi, elemental, record=True):
         if not self.ests:
             return
@@ -492,8 +528,8 @@ def run_histories(ctx, fam, n):
 
         # ONE rule with a weighted choice of operation: Hypothesis draws rules uniformly, so separate rules would make the mix of
         # operations depend on how many kinds there are (merges would crowd out decompositions and evaluations)
-        @rule(op=st.sampled_from(['decompose'] * 6 + ['estimate'] * 5 + ['evaluate'] * 6 + ['load'] * 2 + ['merge', 'cross_merge', 'cross_merge_twice', 'revise', 'revise']),
-              a=st.integers(0, 30), b=st.integers(0, 8), c=st.integers(0, 8), ti=st.integers(0, 2), xi=st.integers(0, 3), flag=st.booleans(),
+        @rule(op=st.sampled_from(['decompose'] * 6 + ['estimate'] * 5 + ['evaluate'] * 6 + ['load'] * 2 + ['merge', 'cross_merge', 'cross_merge_twice', 'revise', 'revise', 'refused_merge']),
+              a=st.integers(0, 30), b=st.integers(0, 8), c=st.integers(0, 8), ti=st.integers(0, 4), xi=st.integers(0, 3), flag=st.booleans(),
               mode=st.sampled_from([0, 0, 1, 2]), ui=st.integers(0, 5))
         def step(self, op, a, b, c, ti, xi, flag, mode, ui):
             sim = self.sim
@@ -512,6 +548,8 @@ def run_histories(ctx, fam, n):
                     sim.evaluate_se(a, ti, xi)
             elif op == 'revise':
                 sim.revise(b, a, xi, ui)
+            elif op == 'refused_merge':
+                sim.refused_merge(b, a)
             elif op == 'merge':
                 sim.merge(b, c)
             elif op == 'cross_merge':
@@ -565,6 +603,8 @@ def replay(ctx, case):
             sim.evaluate(step[1], step[2], step[3], step[4])
         elif op == 'revise':
             sim.revise(step[1], step[2], step[3], step[4])
+        elif op == 'refused_merge':
+            sim.refused_merge(step[1], step[2])
         elif op == 'merge':
             sim.merge(step[1], step[2])
         elif op == 'cross_merge':
